@@ -397,11 +397,10 @@ def check_unready_drop(ctx, r, rule):
            '%d Manager::detach calls in Drop for %s' % (len(dets), r.UNREADY.split('::')[-1]), construct='unready-drop:detach',
            sites=[ctx.where(b, blk.term.line) for blk in dets])
     # both lie on the Some branch of a take()/match on the inner option and not in a loop; on the None branch nothing happens
-    sw = [blk for blk in b.blocks if blk.term.kind == 'switch' and blk.term.j.get('adt') == 'std::option::Option']
+    sw = [blk for blk in b.blocks if maybe_arms(r.crate, blk.term) is not None and not blk.cleanup]
     if len(sw) >= 1 and decs and dets:
         s0 = sw[0]
-        arms = dict(s0.term.switch_arms())
-        some = arms.get('Some'); none = arms.get('None')
+        some, none = maybe_arms(r.crate, s0.term)
         if some is None or none is None:
             ctx.undecide(rule, 'cannot identify Some/None arms in guard drop')
             return
